@@ -44,6 +44,9 @@ ObsInit(DK) ==
     want  |-> [dk \in DK |-> NoWant],   \* publication on a cache with a store that ought to be handed to the store
     unsaved |-> 0,    \* entries evicted after their publishing request had returned without the store ever having been handed the record
     wild  |-> 0,      \* removals of an entry from memory that no purge call in progress covers
+    purged |-> {},    \* entry objects a purge removed from memory
+    zombie |-> 0,     \* store writes issued for an entry object after a purge had removed it
+    over  |-> 0,      \* moments at which a shard was seen holding more entries than its limit
     badstore |-> 0,   \* records persisted under a key that do not decode, or hold a response obtained for another key     \* completions published on a key whose stored response / hit-for-pass period had not lapsed
     kills |-> 0 ]
 
@@ -182,14 +185,24 @@ OHfp(o0, r, e, d, k, now, eff, st) ==
      ELSE o1
 
 (* the store of a cache was handed a record for key k (whatever it then does with it) *)
-OSetTried(o0, k) ==
+(* e: the entry object that is being saved *)
+OSetTried(o0, d, k, e) ==
   LET o == GC(o0) IN
-  [o EXCEPT !.want = [dk \in DOMAIN o.want |-> IF dk[2] = k THEN [o.want[dk] EXCEPT !.tried = TRUE] ELSE o.want[dk]]]
+  [o EXCEPT !.want = [dk \in DOMAIN o.want |-> IF dk = <<d, k>> THEN [o.want[dk] EXCEPT !.tried = TRUE] ELSE o.want[dk]],
+            !.zombie = IF e \in o.purged THEN @ + 1 ELSE @]
+
+(* the harness looked at the shards of cache d: over = some shard holds more entries than its limit *)
+OResident(o0, over) ==
+  LET o == GC(o0) IN [o EXCEPT !.over = IF over THEN @ + 1 ELSE @]
 
 (* the store was handed a record for key k: decodes (ok) and holds version v (0: no response, e.g. hit-for-pass) *)
-OPersisted(o0, k, v, ok) ==
-  LET o == GC(o0) IN
-  [o EXCEPT !.badstore = IF ~ok \/ (v \in DOMAIN o.ver /\ o.ver[v].key # k) THEN @ + 1 ELSE @]
+OPersisted(o0, d, k, e, v, ok) ==
+  LET o == GC(o0)
+      m == IF <<d, k>> \in DOMAIN o.mark THEN o.mark[<<d, k>>] ELSE NoMark
+      (* the record written by the key's current entry object e differs from the response that entry serves (a stale serialisation);
+         a hit-for-pass record may still carry the bytes of an earlier response: they are never served *)
+      stale == m.live /\ o.cur[<<d, k>>] = e /\ m.kind = "hit" /\ v # m.ver
+  IN [o EXCEPT !.badstore = IF ~ok \/ (v \in DOMAIN o.ver /\ o.ver[v].key # k) \/ stale THEN @ + 1 ELSE @]
 
 (* a parked request was released *)
 OWoken(o0, r) ==
@@ -215,6 +228,7 @@ ORemoved(o0, d, k) ==
   LET o == GC(o0) IN
   [o EXCEPT !.cur[<<d, k>>] = 0, !.mark[<<d, k>>] = NoMark, !.req = Disturb(o, d, k),
             !.want[<<d, k>>] = NoWant,
+            !.purged = IF <<d, k>> \in DOMAIN o.cur /\ o.cur[<<d, k>>] # 0 THEN @ \cup {o.cur[<<d, k>>]} ELSE @,
             !.wild = IF <<d, k>> \in DOMAIN o.pb /\ o.pb[<<d, k>>] <= o.pe[<<d, k>>] THEN @ + 1 ELSE @]
 
 (* the purge released the shard of <<d,k>>; ok: the persisted copy is gone (deleted, or no store) *)
@@ -267,13 +281,19 @@ P_SingleFlight(o) ==
    not lapsed (there is nobody who could legitimately have been fetching it) *)
 P_NoUntimelyPublish(o) == o.badpub = 0
 
-(* C08/C09: what is persisted under a key is a well-formed record of that key *)
+(* C08/C09: what is persisted under a key is a well-formed record of that key, and of what the cache holds for it *)
 P_StoreMatchesKey(o) == o.badstore = 0
 
 (* C07/C08: with a store configured, what was published (stored response or hit-for-pass marker) has been handed to
    the store by the time its request returned -- observed when the entry is evicted: from then on the store is the
    only place the response / marker can come from (purged and killed publications are exempt) *)
 P_PublishedIsPersisted(o) == o.unsaved = 0
+
+(* C18: an entry a purge has removed never writes itself to the store afterwards ("any persisted copy is gone as well") *)
+P_NoWriteAfterPurge(o) == o.zombie = 0
+
+(* C11: no shard ever holds more entries than its limit *)
+P_Capacity(o) == o.over = 0
 
 (* C18: entries leave memory only by eviction or under a purge call that names their key and their cache
    (a purge of an absent cache or key touches nothing) *)
